@@ -745,7 +745,7 @@ func (g *gen) docInput(doc map[string]any, v1 bool, fault string) Input {
 
 // ---- raw bytes ----
 
-var nasty = []string{"", "\x00", "{", "}", "[]", "- a", "a: &x [*x, *x]", "configVersion: v1\nonStartup: 1e400", "configVersion: v1\nonStartup: 99999999999999999999999",
+var nasty = []string{"configVersion: v1\nschedule:\n- crontab: \"*/0 * * * * *\"\n", "", "\x00", "{", "}", "[]", "- a", "a: &x [*x, *x]", "configVersion: v1\nonStartup: 1e400", "configVersion: v1\nonStartup: 99999999999999999999999",
 	"[[[[[[[[[[[[[[[[[[[[[[[[[[[[[[[[", "{{{{{{{{{{{{{{{{", "configVersion: v1\nconfigVersion: v1\nonStartup: 1", "\tconfigVersion: v1", "---\n...\n---\n", "!!binary aGVsbG8=",
 	"configVersion: !!str v1\nonStartup: !!int \"3\"", "configVersion: v1\nschedule:\n- crontab: !!binary aGVsbG8=", "? [a, b]\n: c", "configVersion: v1\nkubernetes:\n- kind: Pod\n  labelSelector: {matchLabels: {a: 1}}",
 	"configVersion: v1\nsettings: {executionMinInterval: 1s, executionBurst: 1.0}", "configVersion: v1\nonStartup: 0x10", "configVersion: v1\nonStartup: .inf", "configVersion: v1\nonStartup: -0",
@@ -833,6 +833,10 @@ func (g *gen) corpus() []core.In[Input] {
 		mk(map[string]any{"configVersion": "v1", "kubernetes": []any{pod, map[string]any{"kind": "ConfigMap"}},
 			"schedule": []any{map[string]any{"crontab": "* * * * *", "includeSnapshotsFrom": []any{"kubernetes"}}}}, true, "ambiguous-include (two default names)"),
 		mk(map[string]any{"configVersion": "v2", "onStartup": 1}, true, "bad-version"),
+		// F19: a zero step in a crontab field sends robfig/cron.v2 into an endless loop (found by the raw bit-flip stream)
+		g.f19(map[string]any{"configVersion": "v1", "schedule": []any{map[string]any{"crontab": "*/0 * * * *"}}}, true, "*/0 * * * *"),
+		g.f19(map[string]any{"schedule": []any{map[string]any{"crontab": "* * * * */0"}}}, false, "* * * * */0"),
+		g.f19(map[string]any{"configVersion": "v1", "schedule": []any{map[string]any{"crontab": "*/5 * * * *"}, map[string]any{"crontab": "0 1-5/00 * * * *"}}}, true, "0 1-5/00 * * * *"),
 		// F18 (repaired): an invalid namespace.labelSelector of a kubernetes binding used to be accepted
 		g.f18(map[string]any{"matchExpressions": []any{map[string]any{"key": "tier", "operator": "In"}}}),
 		g.f18(map[string]any{"matchLabels": map[string]any{"bad key!": "x"}}),
@@ -840,6 +844,12 @@ func (g *gen) corpus() []core.In[Input] {
 		mk(map[string]any{"configVersion": "v1", "onStartup": 1.5}, true, "wrong-type onStartup"),
 	}
 	return out
+}
+
+func (g *gen) f19(doc map[string]any, v1 bool, cron string) core.In[Input] {
+	in := g.docInput(doc, v1, "bad-crontab (zero step) "+cron)
+	in.BadCron = append(in.BadCron, cron)
+	return core.In[Input]{Input: in, Stream: "corpus"}
 }
 
 func (g *gen) f18(sel map[string]any) core.In[Input] {
